@@ -511,5 +511,9 @@ func runCase(def *checkDef, c *Ctx, cs any) (ok bool) {
 		}
 	}()
 	def.run(c, cs)
+	if DebugTwinDiff != "" {
+		c.Violate(def.meta.ID+" a call and its twin (debug flag / sibling entry point) give different outcomes", DebugTwinDiff, nil)
+		DebugTwinDiff = ""
+	}
 	return true
 }
